@@ -348,6 +348,10 @@ pub fn run_staked(rng: &mut Rng, n: usize, rep: &mut Report) {
                 rep.fail(format!("C09 a price was produced from accounts that are not the configured, authentic, fresh ones: {}", desc));
                 if matches!(dev, SDev::WrongMintKey | SDev::WrongStakeKey | SDev::WrongOracleKey | SDev::WrongOracleOwner) {
                     rep.fail(format!("C08 a substituted oracle / mint / stake account (another bank's or another program's) was accepted: {}", desc));
+                    // seen from the risk gate: the collateral of a borrow / withdrawal is then valued from accounts the CALLER chose
+                    // (his own mint with a tiny supply, any stake account with a large delegation), not from the bank's configured
+                    // ones: the health the gate computes is not the health of the presented, configured oracle data
+                    rep.fail(format!("C04 the price adapter of a staked-collateral bank accepts a pool account that is not the one configured for the bank, so the initial-margin gate of a borrow or withdrawal values the collateral at whatever exchange rate the caller's substitute implies: {}", desc));
                 }
             }
             continue;
